@@ -10,6 +10,7 @@ snapshot/registration window) - today's tree has such a window: KNOWN FINDING F1
 set: a call that does not change the (idempotent) set sends nothing; (R13.6) the message builder (found by signature)
 writes exactly the type byte (the enum as u8: SUBSCRIBE = 1, UNSUBSCRIBE = 0) followed by the topic bytes.
 Does NOT decide agreement at quiescent points under real interleavings."""
+import re
 from ..sym import show, walk_expr
 from ..common import short, trait_impls, coroutine_of, type_holds, strip_view
 from .. import pathq
@@ -57,7 +58,7 @@ def anchors(f):
             en = enum_of(ty)
             if en is None:
                 continue
-            topic = next((j for j, t2 in enumerate(s["inputs"]) if t2 in ("&str", "&std::string::String", "std::string::String", "&[u8]")), None)
+            topic = next((j for j, t2 in enumerate(s["inputs"]) if re.sub(r"&'[a-z_0-9]+ ", "&", t2) in ("&str", "&std::string::String", "std::string::String", "&[u8]")), None)
             if "ZmqMessage" in s.get("output", "") and not s.get("is_async"):
                 out.update(enum=en, builder=path, builder_ty_arg=i, builder_topic_arg=topic)
             elif s.get("is_async"):
